@@ -569,6 +569,11 @@ def prove(assumptions, goal, timeout_s=10, opts=None, rounds=2):
     try:
         from . import ring
         if ring.ring_proves(goal, (opts or {}).get("rewrites") or ()):
+            # the normaliser is trusted code: every identity it accepts without lemma rewrites is cross-checked by exact evaluation at
+            # random rational points (independent code path); a disagreement is never a PROVED
+            if not ((opts or {}).get("rewrites") or ()) and not ring.crosscheck_identity(goal, seed=(opts or {}).get("seed", 0)):
+                return Verdict(UNDECIDED, "ring-normaliser", (time.time() - t0) * 1000,
+                               reason="ENGINE-FAULT: the ring normaliser accepts the goal but exact evaluation at a random rational point falsifies it")
             return Verdict(PROVED, "ring-normaliser", (time.time() - t0) * 1000)
         if (opts or {}).get("ring_only") or (opts or {}).get("try_eval"):
             model = ring.refute_by_evaluation(list(assumptions), goal, seed=(opts or {}).get("seed", 0))
